@@ -70,6 +70,11 @@ CHECKS = {
    technique="metamorphic property-based testing (proptest): a generated history H and a generated redundant-step transformation tau(H) executed in twin sandboxes; notes and blame must coincide",
    text="A base history of human/agent edits and (partial) commits is run unchanged and with a generated transformation that inserts extra human checkpoints, verbatim repetitions of the preceding checkpoint, read-only git commands, and splits multi-line agent insertions into consecutive partial writes with their own checkpoints. Pinned dates give identical commit ids; attestation sets of every commit and `git-ai blame --json` of every file must be identical.",
    note="Repetition is only inserted directly after the checkpoint it repeats (the property's 'no intervening change'). Intra-line pure deletions are not generated (F14 is schedule-dependent by construction). Findings F36 and F25 are matched by signature."),
+ "C15": dict(
+   level="exploration", design="DESIGN.md §2 C15",
+   technique="differential property-based testing (proptest): generated rebase/cherry-pick scenarios executed with the shortcut enabled and with it forced off by the verification hook; notes/blame compared, content-addressed model as arbiter",
+   text="Scenarios biased toward the shortcut's precondition (upstream changes confined to files no AI commit touches, plus variants where it fails for some pair, counts differ, a commit lacks a note) run twice with pinned dates: normally and with GIT_AI_VERIF_NO_FAST_PATH=1. For every rewritten commit the attestations restricted to the lines it adds, the prompt records of referenced sessions and the base must agree; blame at every tip must agree. Whether the shortcut ran is read from its debug log line.",
+   note="Uses the guarded hook (env switch) in rebase_authorship.rs. Lines with more than one admissible author (white space re-touched across commits, conflict resolutions, filler) are excluded. A difference in which the copied note agrees with the model and the full algorithm does not is finding F37; differences on intermediate commits are finding F5."),
 }
 
 NOT_YET = "check not built yet (work in progress; see DESIGN.md section 2 for the plan)"
